@@ -90,7 +90,7 @@ def run_family(pid, family, tier, wd, module="FnSpec.tla"):
 
 def record_of(rpath, n):
     for l in open(rpath):
-        if f'"n":{n},' in l or f'"n":{n}}}' in l:
+        if f'"n":{n},' in l or f'"n":{n}}}' in l or f'"n": {n},' in l:
             r = json.loads(l)
             if r.get("n") == n:
                 return r
